@@ -117,6 +117,24 @@ def run_case(case, which):
                     return 'L[%s] -> %r/%r but no such object in list' % (key, gi, gi_err)
                 if mem:
                     return '%s in L is True but no such object in the list' % key
+        return same_contents_same_answers(L, items)
+
+    doc3 = collada.Collada()
+
+    def same_contents_same_answers(L, items):
+        """clause: look-ups agree *exactly* with the list contents, i.e. they are determined by them: a
+        library list holding the same objects in the same order (made through the attribute of another
+        document) answers every key alike -- whichever carrier of a colliding id the library chooses."""
+        setattr(doc3, attr, list(items))
+        F = getattr(doc3, attr)
+        if [id(o) for o in F] != [id(o) for o in items]:
+            return None          # the replacement itself misbehaves: judged by the positional clauses
+        for a in alphabet:
+            key = 'id%d' % a
+            g, f = L.get(key), F.get(key)
+            if g is not f:
+                return ('get(%s) -> %r, but a library list with the same contents %r answers %r: '
+                        'the look-up depends on the history, not on the contents' % (key, g, items, f))
         return None
 
     held = {}        # every list object the attribute ever returned (old ones stay coherent on their own)
@@ -453,6 +471,19 @@ def run_case_sparse(case, which):
                 fails.append({'step': len(case['ops']) - 1, 'op': case['ops'][-1], 'kind': 'lookup-incoherent',
                               'detail': 'after the history (no look-up in between): get(%s) -> %r but no such object in list' % (key, g)})
                 break
+        if not fails:
+            doc3 = collada.Collada()
+            setattr(doc3, attr, list(items))
+            F = getattr(doc3, attr)
+            if [id(o) for o in F] == [id(o) for o in items]:
+                for a in case['alphabet']:
+                    key = 'id%d' % a
+                    g, f = L.get(key), F.get(key)
+                    if g is not f:
+                        fails.append({'step': len(case['ops']) - 1, 'op': case['ops'][-1], 'kind': 'lookup-incoherent',
+                                      'detail': 'after the history (no look-up in between): get(%s) -> %r, but a library list with the '
+                                                'same contents %r answers %r' % (key, g, items, f)})
+                        break
     return {'obs': [], 'fails': fails[:1], 'sparse': True}
 
 
